@@ -1,5 +1,177 @@
-/- Engine `walk` (C09): not built yet. -/
+/-
+  Engine `walk` (C09).  Op lines (extra trailing tokens are ignored):
+    W <tree> <buffer-hex> <expand 0|1><ranges 0|1>
+        rtosc::walk_ports on the dynamic table <tree> with runtime == NULL; the buffer is the
+        whole block handed in (its length is its real size).
+    R <id> <tree> <obj> <buffer-hex>
+        the same with a runtime object (the harness walks its compiled tree number <id>,
+        which must have the shape <tree>, configured as <obj>).
+  <tree> ::= '[' [ port { ',' port } ] ']'      port ::= <name-hex> ';' <meta> ';' ( '0' | <tree> )
+  <meta> ::= 'N' (NULL) | <block-hex>
+  <obj>  ::= '{' <toggles> '|' <kids> '}'
+  <toggles> ::= '-' | <name-hex> '=' ('0'|'1') { ',' … }
+  <kids>    ::= '-' | <rel-address-hex> '=' ( 'N' | <obj> ) { ',' … }
+  Output:
+    W <n> <calls> B=<string in the buffer afterwards, hex>      | W oob | W undef
+    <calls> ::= '-' | call { ',' call }
+    call ::= <i.j.k> ':' <address-hex> [ '>' ( '-' | <i.j.k> { '+' <i.j.k> } | 'oob' ) ]
+  The part behind '>' (default options only) lists the leaf ports whose callbacks run when the
+  address — without the prefix the buffer started with — is sent back as a message carrying
+  the first type alternative of the reported port with all-zero arguments.
+-/
+import RtoscModel.Walk.Dispatch
 import Driver.Common
 namespace Driver.WalkEngine
-def engine : Driver.Engine := Driver.stateless (fun _ => "unimplemented")
+open Rtosc Rtosc.Path Rtosc.Walk
+
+def trunc (b : Bytes) : Bytes := b.takeWhile (· ≠ 0)
+
+abbrev P := List Char
+
+def takeTok (stop : Char → Bool) : P → String × P
+  | cs => (String.ofList (cs.takeWhile (fun c => !stop c)), cs.dropWhile (fun c => !stop c))
+
+mutual
+partial def parsePorts : P → Option (List PortT × P)
+  | '[' :: ']' :: r => some ([], r)
+  | '[' :: r => parsePortList r []
+  | _ => none
+partial def parsePortList (cs : P) (acc : List PortT) : Option (List PortT × P) :=
+  match parsePort cs with
+  | none => none
+  | some (p, ',' :: r) => parsePortList r (p :: acc)
+  | some (p, ']' :: r) => some ((p :: acc).reverse, r)
+  | _ => none
+partial def parsePort (cs : P) : Option (PortT × P) :=
+  let (n, r1) := takeTok (· == ';') cs
+  match ofHex n, r1 with
+  | some name, ';' :: r2 =>
+    let (m, r3) := takeTok (· == ';') r2
+    let md : Option (Option Bytes) := if m == "N" then some none else (ofHex m).map some
+    match md, r3 with
+    | some md, ';' :: '0' :: r4 => some (.mk (trunc name) md false [], r4)
+    | some md, ';' :: r4 =>
+      match parsePorts r4 with
+      | some (cs', r5) => some (.mk (trunc name) md true cs', r5)
+      | none => none
+    | _, _ => none
+  | _, _ => none
+end
+
+def parseTree (s : String) : Option (List PortT) :=
+  match parsePorts s.toList with
+  | some (t, []) => some t
+  | _ => none
+
+mutual
+partial def parseObj : P → Option (Obj × P)
+  | '{' :: r =>
+    match parseToggles r with
+    | some (ts, '|' :: r2) =>
+      match parseKids r2 with
+      | some (ks, '}' :: r3) => some (.mk ts ks, r3)
+      | _ => none
+    | _ => none
+  | _ => none
+partial def parseToggles : P → Option (List (Bytes × Bool) × P)
+  | '-' :: r => some ([], r)
+  | cs => parseToggleList cs []
+partial def parseToggleList (cs : P) (acc : List (Bytes × Bool)) : Option (List (Bytes × Bool) × P) :=
+  let (n, r1) := takeTok (· == '=') cs
+  match ofHex n, r1 with
+  | some name, '=' :: v :: r2 =>
+    let acc' := (name, v == '1') :: acc
+    match r2 with
+    | ',' :: r3 => parseToggleList r3 acc'
+    | _ => some (acc'.reverse, r2)
+  | _, _ => none
+partial def parseKids : P → Option (List (Bytes × Option Obj) × P)
+  | '-' :: r => some ([], r)
+  | cs => parseKidList cs []
+partial def parseKidList (cs : P) (acc : List (Bytes × Option Obj)) : Option (List (Bytes × Option Obj) × P) :=
+  let (n, r1) := takeTok (· == '=') cs
+  match ofHex n, r1 with
+  | some rel, '=' :: 'N' :: r2 =>
+    let acc' := (rel, none) :: acc
+    match r2 with
+    | ',' :: r3 => parseKidList r3 acc'
+    | _ => some (acc'.reverse, r2)
+  | some rel, '=' :: r2 =>
+    match parseObj r2 with
+    | some (o, r3) =>
+      let acc' := (rel, some o) :: acc
+      match r3 with
+      | ',' :: r4 => parseKidList r4 acc'
+      | _ => some (acc'.reverse, r3)
+    | none => none
+  | _, _ => none
+end
+
+def parseObjStr (s : String) : Option Obj :=
+  match parseObj s.toList with
+  | some (o, []) => some o
+  | _ => none
+
+def showIx (ix : List Nat) : String := ".".intercalate (ix.map toString)
+
+/-- first type alternative of a port name: the characters between the first ':' and the next -/
+def firstTags (name : Bytes) : Bytes :=
+  ((name.dropWhile (· ≠ 58)).drop 1).takeWhile (· ≠ 58)
+
+def nameOf : List PortT → List Nat → Option Bytes
+  | _, [] => none
+  | ps, [i] => (ps[i]?).map (·.name)
+  | ps, i :: j :: ix =>
+    match ps[i]? with
+    | none => none
+    | some p => nameOf p.children (j :: ix)
+
+def showDisp (tab : List PortT) (prefLen : Nat) (c : Call) : String :=
+  match nameOf tab c.1 with
+  | none => "?"
+  | some name =>
+    match dispatchSim tab (47 :: c.2.drop prefLen) (firstTags name) with
+    | none => "oob"
+    | some [] => "-"
+    | some l => "+".intercalate (l.map showIx)
+
+def showCalls (tab : List PortT) (prefLen : Option Nat) (cs : List Call) : String :=
+  if cs.isEmpty then "-" else
+    ",".intercalate (cs.map fun c =>
+      showIx c.1 ++ ":" ++ toHex c.2 ++
+        (match prefLen with
+         | none => ""
+         | some n => ">" ++ showDisp tab n c))
+
+def run (tab : List PortT) (rt : Option Obj) (buf : Bytes) (o : Opts) : String :=
+  -- the prefix the buffer starts with (the root '/' for an empty buffer)
+  let prefLen : Option Nat :=
+    if o.expand && !o.ranges then
+      match cstrAt buf 0 with
+      | .ok s => some (if s.isEmpty then 1 else s.length)
+      | .error _ => none
+    else none
+  match walkPorts o tab rt buf with
+  | .error .oob => "W oob"
+  | .error .undef => "W undef"
+  | .ok (cs, b) =>
+    let after := match cstrAt b 0 with
+      | .ok s => toHex s
+      | .error _ => "oob"
+    s!"W {cs.length} {showCalls tab prefLen cs} B={after}"
+
+def step (line : String) : String :=
+  match words line with
+  | "W" :: t :: b :: f :: _ =>
+    match parseTree t, ofHex b, f.toList with
+    | some tab, some buf, [e, r] => run tab none buf { expand := e == '1', ranges := r == '1' }
+    | _, _, _ => "bad-op"
+  | "R" :: _ :: t :: o :: b :: _ =>
+    match parseTree t, parseObjStr o, ofHex b with
+    | some tab, some obj, some buf => run tab (some obj) buf {}
+    | _, _, _ => "bad-op"
+  | _ => "bad-op"
+
+def engine : Driver.Engine := Driver.stateless step
+
 end Driver.WalkEngine
